@@ -42,11 +42,23 @@ partial def parseExpr (j : Json) : PM Expr := do
     | .ref n => pure (.der n)
     | .idx n i => pure (.derAt n i)
     | _ => throw "der of a non-reference"
-  | "neg" => do pure (.neg (← parseExpr (← (getObj j "e" : Except String Json))))
+  | "neg" => do pure (.un .neg (← parseExpr (← (getObj j "e" : Except String Json))))
+  | "un" => do
+    let f ← (getStr j "f" : Except String String)
+    let op ← match f with
+      | "floor" => pure UnOp.floor | "ceil" => pure UnOp.ceil | "sign" => pure UnOp.sign | "abs" => pure UnOp.abs
+      | x => throw s!"bad-fn {x}"
+    pure (.un op (← parseExpr (← (getObj j "e" : Except String Json))))
+  | "ite" => do
+    let c ← parseExpr (← (getObj j "c" : Except String Json))
+    let a ← parseExpr (← (getObj j "a" : Except String Json))
+    let b ← parseExpr (← (getObj j "b" : Except String Json))
+    pure (.ite c a b)
   | "bin" => do
     let o ← (getStr j "op" : Except String String)
     let op ← match o with
       | "+" => pure BinOp.add | "-" => pure BinOp.sub | "*" => pure BinOp.mul | "/" => pure BinOp.div
+      | ">" => pure BinOp.gt | "<" => pure BinOp.lt | ">=" => pure BinOp.ge | "<=" => pure BinOp.le
       | x => throw s!"bad-op {x}"
     let a ← parseExpr (← (getObj j "a" : Except String Json))
     let b ← parseExpr (← (getObj j "b" : Except String Json))
